@@ -45,7 +45,7 @@ func zzOptsFor(algo int, withURL bool, urlStr string) *Options {
 	return o
 }
 
-var zzPageURLs = []string{"http://h.t/a?page=2", "http://h.t/story/2", "http://h.t/plain", "http://h.t/list?cat=2&page=2"}
+var zzPageURLs = []string{"http://h.t/a?page=2", "http://h.t/story/2", "http://h.t/plain/", "http://h.t/list?cat=2&page=2"}
 
 // HarnessC11Orders: Apply on the same bytes under different map-iteration
 // orders (insertion order, reversed, rotated) gives identical results. The
@@ -88,15 +88,30 @@ func HarnessC11History() {
 	algo := vx.Choose("algo", 2)
 	first, _ := Apply(vx.ParseHTML(page), zzOptsFor(algo, true, zzPageURLs[pi]))
 	k0 := zzKey(first)
-	// an arbitrary earlier call sequence: one or two other pages
-	o1 := vx.Choose("other1", len(vx.Pages))
-	Apply(vx.ParseHTML(vx.Pages[o1]), zzOptsFor(vx.Choose("algo1", 2), true, zzPageURLs[o1]))
+	// an arbitrary earlier call sequence of one or two calls: other pages, or
+	// the same page under a sibling URL (other scheme, other query)
+	earlier := func(name string) {
+		o := vx.Choose(name, len(vx.Pages)+2)
+		switch {
+		case o < len(vx.Pages):
+			Apply(vx.ParseHTML(vx.Pages[o]), zzOptsFor(vx.Choose(name+"algo", 2), true, zzPageURLs[o]))
+		case o == len(vx.Pages):
+			Apply(vx.ParseHTML(page), zzOptsFor(algo, true, strings.Replace(zzPageURLs[pi], "http://", "https://", 1)))
+		default:
+			Apply(vx.ParseHTML(page), zzOptsFor(1-algo, false, ""))
+		}
+	}
+	earlier("other1")
 	if vx.Choose("two", 2) == 1 {
-		o2 := vx.Choose("other2", len(vx.Pages))
-		Apply(vx.ParseHTML(vx.Pages[o2]), zzOptsFor(1-algo, false, ""))
+		earlier("other2")
 	}
 	again, _ := Apply(vx.ParseHTML(page), zzOptsFor(algo, true, zzPageURLs[pi]))
 	vx.Assert(zzKey(again) == k0, "result differs after other pages were distilled in the same process: "+zzDiff(zzKey(again), k0))
+	// repeated runs with the SAME Options value
+	shared := zzOptsFor(algo, true, zzPageURLs[pi])
+	s1, _ := Apply(vx.ParseHTML(page), shared)
+	s2, _ := Apply(vx.ParseHTML(page), shared)
+	vx.Assert(zzKey(s1) == k0 && zzKey(s2) == k0, "repeated runs with the same Options value differ: "+zzDiff(zzKey(s2), k0))
 	viaReader, err := ApplyForReader(strings.NewReader(page), zzOptsFor(algo, true, zzPageURLs[pi]))
 	vx.Assert(err == nil && zzKey(viaReader) == k0, "ApplyForReader differs from Apply on the parsed tree: "+zzDiff(zzKey(viaReader), k0))
 	path, done := vx.TempFile(page)
